@@ -85,6 +85,15 @@ def run(ctx):
     r.check(len(err) == 1 and isinstance(err[0][1], ast.Name), "%s#topic-error-stored" % mt.qname, "the topic's error code from the reply is not stored",
             where(mt, lp[0].stmt))
 
+    # writer / resetter agreement: the per-topic reset removes the topic's entries from every cache the merge fills
+    rtm = ctx.func(KC + ".reset_topic_metadata")
+    mtm = ctx.func(KC + "._merge_topic_metadata")
+    filled_ = {a_ for a_, evs in prog.direct_writes(mtm).items() if any(k_ == "mutate" and isinstance(n_, ast.Assign) for k_, n_ in evs)}
+    dropped_ = {a_ for a_, evs in prog.direct_writes(rtm).items() if any(k_ in ("mutate", "del") for k_, n_ in evs)}
+    r.check(bool(filled_) and filled_ <= dropped_, "%s#drops-every-filled-cache" % rtm.qname,
+            "the per-topic reset leaves the topic's entries in %s, which the merge fills" % sorted(filled_ - dropped_), where(rtm, rtm.node),
+            "a partition that disappears from a topic keeps its cached metadata for ever: the view does not equal what the response said")
+
     # ---- R2 removal only on full refresh
     r = ctx.rule("R2", "clients are closed only on a full refresh with brokers; existing clients get the entry of their own id", 4, "B")
     ub = ctx.func(KC + "._update_brokers")
@@ -273,6 +282,8 @@ def run(ctx):
 
 
 MUTANTS = [
+    {"id": "partition-meta-survives-topic-reset", "file": "client.py", "old": "                    self.partition_meta.pop(TopicAndPartition(topic, partition), None)\n", "new": "",
+     "expect": "C08.R1", "note": "finding F24"},
     {"id": "no-per-topic-reset", "file": "client.py", "old": "            self.reset_topic_metadata(topic)\n            self.topic_errors[topic] = topic_error",
      "new": "            self.topic_errors[topic] = topic_error", "expect": "C08.R1"},
     {"id": "reset-all-on-merge", "file": "client.py", "old": "            self.reset_topic_metadata(topic)\n            self.topic_errors[topic] = topic_error",
